@@ -7,7 +7,9 @@ Open Scope N_scope.
 Definition d_verdict (v : val) : verdict :=
   match v with
   | VN 0 => VKeep
-  | VN 1 => VRaise
+  | VN 1 => VRaise FException
+  | VN 2 => VRaise FTimeout
+  | VN 3 => VRaise FKill
   | VN c => VCode c
   | _ => VKeep
   end.
